@@ -482,8 +482,10 @@ feederLoop:
 					child.responseResult = errTimedOut
 					child.broker.acks.Done()
 				remainingLoop:
-					for _, msg = range msgs[i:] {
-						child.interceptors(msg)
+					for j, msg := range msgs[i:] {
+						if j > 0 { // msgs[i] already went through the interceptors above
+							child.interceptors(msg)
+						}
 						select {
 						case child.messages <- msg:
 						case <-child.dying:
